@@ -85,6 +85,10 @@ func (p *clientStreamProcessorFMP4) run(ctx context.Context) error {
 	tracks := make([]*Track, len(p.init.Tracks))
 
 	for i, track := range p.init.Tracks {
+		if track.TimeScale == 0 {
+			return fmt.Errorf("invalid timescale of track %d", track.ID)
+		}
+
 		tracks[i] = &Track{
 			Codec:     codecs.FromFMP4(track.Codec),
 			ClockRate: int(track.TimeScale),
